@@ -43,6 +43,11 @@ EXTRA_STATIC = [
     # objects first declared while their type was incomplete: contents, size and alignment are those of the completed type
     'extern struct ES104 es104; struct ES104 { long a; char b; }; struct ES104 es104 = { 1, 2 };', 'extern union ES105 es105; union ES105 { double d; char c; }; union ES105 es105 = { 1.5 };',
     'extern struct ES106 es106; struct ES106 { _Alignas(32) short h; char c; }; struct ES106 es106 = { 1, 2 };',
+    # arrays of unknown size declared through one typedef, typeof or one set of specifiers: each initialiser sizes its own object
+    'typedef const char ES107T[]; ES107T es107 = "ab", es108 = "abcd", es109 = "a";', 'typedef int ES110T[]; ES110T es110 = { 1, 2 }; ES110T es111 = { 1, 2, 3 }; ES110T es112 = { [5] = 1 };',
+    'extern int es113x[]; __typeof__(es113x) es113 = { 1, 2 }, es114 = { 3 }; int es113x[3] = { 7 }; int es115 = sizeof es113 + sizeof es114 + sizeof es113x;',
+    'typedef struct { int a; char c; } ES116T[]; ES116T es116 = { { 1, 2 } }, es117 = { { 1, 2 }, { 3, 4 }, { 5 } };', 'typedef int ES118T[][2]; ES118T es118 = { 1, 2, 3 }, es119 = { { 1 }, { 2 }, { 3 } };',
+    'typedef unsigned short ES120T[]; int *es120 = (int *)(ES120T){ 1, 2 }; int es121 = sizeof (ES120T){ 1, 2, 3, 4 }; ES120T es122 = u"abc", es123 = u"a";',
     'struct { unsigned w[10]; int k; } es101 = { .w = U"xyz", .w[8] = 5, .k = 1 };', 'struct { unsigned short h[9]; } es102 = { .h = u"ab", .h[7] = 9, .h[3] = 1 };', "struct { char c[12]; } es103 = { .c = \"hi\", .c[11] = 'z' };",
     # designators that pass through anonymous members, followed by positional initialisers
     'struct { int a; struct { int b, c; }; int d; int e; } es81 = { .b = 1, 2, 3 };', 'struct { int a; struct { int b, c; }; int d; int e; } es82 = { 5, .c = 1, 3 };',
